@@ -148,24 +148,32 @@ func setOf(a []int) []int {
 
 func eqInts(a, b []int) bool { return eqPath(a, b) }
 
-func payloadOwner(calls []Call) map[int]int {
-	own := map[int]int{}
+// payloadOwner / handlerOwner: which calls' scripts contain the payload / handler id (with
+// shared options a value belongs to every call whose script builds it)
+func payloadOwner(calls []Call) map[int]map[int]bool {
+	own := map[int]map[int]bool{}
 	for i, c := range calls {
 		for _, b := range c.Script {
 			for _, it := range b.Items {
-				own[it[1]] = i
+				if own[it[1]] == nil {
+					own[it[1]] = map[int]bool{}
+				}
+				own[it[1]][i] = true
 			}
 		}
 	}
 	return own
 }
 
-func handlerOwner(calls []Call) map[int]int {
-	own := map[int]int{}
+func handlerOwner(calls []Call) map[int]map[int]bool {
+	own := map[int]map[int]bool{}
 	for i, c := range calls {
 		for _, b := range c.Script {
 			for _, h := range b.Hs {
-				own[h] = i
+				if own[h] == nil {
+					own[h] = map[int]bool{}
+				}
+				own[h][i] = true
 			}
 		}
 	}
@@ -190,8 +198,11 @@ func judge(c *Case, obs []CallObs, res *lib.Result) {
 	tags[fmt.Sprintf("running-nodes:%d", min(nn, 12))] = true
 	tags[fmt.Sprintf("depth:%d", depth)] = true
 	for _, g := range c.Forest {
+		if g.Loop > 0 {
+			tags[fmt.Sprintf("loop:%d", g.Loop)] = true
+		}
 		if g.Chain {
-			tags["mode:chain"] = true
+			tags["mode:chain-"+chainShape(g)] = true
 		} else if g.Wf {
 			tags["mode:workflow"] = true
 		} else if g.Dag {
@@ -212,6 +223,9 @@ func judge(c *Case, obs []CallObs, res *lib.Result) {
 				tags["kind:"+nd.Kind] = true
 			}
 		}
+	}
+	if c.Share {
+		tags["options:shared-between-calls"] = true
 	}
 	if c.Seq {
 		tags["calls:sequential"] = true
@@ -358,6 +372,12 @@ func judge(c *Case, obs []CallObs, res *lib.Result) {
 					}
 				}
 			}
+			if len(o.Differ) > 0 {
+				fail("wrong-delivery", fmt.Sprintf("call %d: a node that executes several times was not handed the same options every time: %s", i, strings.Join(o.Differ, "; ")))
+			}
+			if len(o.DifferCb) > 0 {
+				fail("callback-misplaced", fmt.Sprintf("call %d: a node that executes several times did not have the same handlers fire every time: %s", i, strings.Join(o.DifferCb, "; ")))
+			}
 			if o.Extra != "" {
 				fail("harness-anomaly", fmt.Sprintf("call %d: %s", i, o.Extra))
 			}
@@ -369,14 +389,14 @@ func judge(c *Case, obs []CallObs, res *lib.Result) {
 			// no leak between calls
 			for _, pl := range o.Deliv {
 				for _, v := range pl.Vals {
-					if own, ok := pOwn[v]; !ok || own != i {
+					if !pOwn[v][i] {
 						fail("leak", fmt.Sprintf("call %d: node %s received option payload %d of another call", i, pathName(pl.Path), v))
 					}
 				}
 			}
 			for _, pl := range o.Fired {
 				for _, v := range pl.Vals {
-					if own, ok := hOwn[v]; !ok || own != i {
+					if !hOwn[v][i] {
 						fail("leak", fmt.Sprintf("call %d: handler %d of another call fired at %s", i, v, pathName(pl.Path)))
 					}
 				}
